@@ -73,7 +73,7 @@ PROPS["C03"] = dict(
     rule="E-input: (1) every bit sequence of length <= N as a run list; (2) every run list of <= 2 runs (thorough: <= 3) over (gap, length) magnitudes from 1 to 2^63 (1..22 code units), first gap also 0, "
          "trailing zeros in {0, 1, 2^61}, total length capped at usize::MAX; (3) block-shape families: k tiny runs + one big run + k tiny runs (1, 8, 9, many blocks; blocks closed early) and a first block without unset bits "
          "followed by 2..20 more blocks, k up to 600 with long tails; (4) lengths at the documented maximum: usize::MAX - slack for slack 0..40 with 1..20 blocks and a final run or trailing zeros up to the very end. "
-         "Built run by run; per-bit, split-run and copy_bit_vec routes must answer identically. All ten operations at run edges, block-sample edges (read from the "
+         "Built run by run; per-bit, split-run, set_len-before-every-run and copy_bit_vec routes must answer identically. All ten operations at run edges, block-sample edges (read from the "
          "file by the independent codec) +-1, a uniform grid over the length, the midpoints of gaps and runs, and A(.); run_iter must yield exactly the maximal runs with running offset/rank/rank_zero. Non-trivial = at least one run; distinct by hashed case key.",
     bounds={"quick": "N=10; <=2 runs over 8 magnitudes x 3 tails; 450 block shapes", "thorough": "N=13; <=2 runs over 19 magnitudes and <=3 runs over 10 magnitudes x 3 tails; 1500 block shapes"},
     require_counters={"quick": {"vectors_with_9_or_more_blocks": 10, "vectors_longer_than_2^63": 100}, "thorough": {"vectors_with_9_or_more_blocks": 10, "vectors_longer_than_2^63": 100}},
